@@ -471,6 +471,12 @@ func libGoroutines() []string {
 	var left []string
 	for _, g := range strings.Split(buf.String(), "\n\n") {
 		if strings.Contains(g, "github.com/b2broker/simplefix-go.") || strings.Contains(g, "simplefix-go/utils.") || strings.Contains(g, "simplefix-go/session.") {
+			// the accept loop belongs to the acceptor, not to a connection: it is the goroutine sitting in (or created to
+			// call) the listener's Accept, and the one running ListenAndServe — recognised by what they do, whatever the
+			// functions around them are called
+			if strings.Contains(g, ").Accept(") || strings.Contains(g, ".(*Acceptor).ListenAndServe(") {
+				continue
+			}
 			// first library frame
 			for _, line := range strings.Split(g, "\n") {
 				if strings.Contains(line, "simplefix-go") && !strings.HasPrefix(line, "\t") {
@@ -640,9 +646,6 @@ func faultCase(r *rand.Rand, o *hout.Out, idx int) {
 		time.Sleep(20 * time.Millisecond)
 		left = nil
 		for _, g := range libGoroutines() {
-			if strings.Contains(g, "ListenAndServe") { // the accept loop belongs to the acceptor, not to the connection
-				continue
-			}
 			left = append(left, g)
 		}
 		if len(left) == 0 && time.Since(settle) > 300*time.Millisecond {
